@@ -709,6 +709,7 @@ report(const int *choices, int n, const xres_t *x) {
 
 static int stop_now;
 static uint64_t top_counter;
+static int n_samples_emitted;
 
 static void
 announce(const int *choices, int n) {
@@ -736,6 +737,17 @@ explore(const int *prefix, int nprefix, int used, int maxdev, int top) {
   choices = malloc(sizeof(int) * (size_t)(n + 2));
   for (i = 0; i < n; i++) choices[i] = tr[i].chosen;
   drv_set("outcomes", x.outcome);
+  if (nprefix > 0 && n_samples_emitted < 2 && drv.shard == 0) {
+    /* an actually explored schedule, written out */
+    vh_buf_t sb;
+    vb_init(&sb);
+    vb_printf(&sb, "{\"scenario\":\"%s\",\"base_scheduler\":%d,\"deviations\":%d,\"choice_points\":%d,\"choices\":[", sc->name, base_sched, used, n);
+    for (i = 0; i < n && i < 200; i++) vb_printf(&sb, "%s%d", i ? "," : "", choices[i]);
+    vb_printf(&sb, "],\"status\":%d}", x.status);
+    drv_sample(sb.p);
+    vb_free(&sb);
+    n_samples_emitted++;
+  }
   if (!x.ok) {
     report(choices, n, &x);
     free(tr); free(choices);
